@@ -8,6 +8,11 @@ import common  # noqa: E402
 
 
 def main():
+    if os.environ.get("VERIF_FAULTHANDLER"):
+        # diagnosis of a stuck run: kill -USR1 <pid> prints the stack of every thread
+        import faulthandler
+        import signal
+        faulthandler.register(signal.SIGUSR1, all_threads=True)
     if len(sys.argv) < 2:
         print("usage: check <Cxx> quick|thorough | check <Cxx> --replay <path> | check selftest")
         return 2
